@@ -2,7 +2,7 @@
 from . import render as R
 
 T_TEMPLATES = [t for t in R.TR_TEMPLATES if t[0] in "Tt"]
-CHANNELS = ("kw", "config", "parse", "assign", "assign_wait")
+CHANNELS = ("kw", "config", "parse", "assign", "assign_wait", "obj_kwargs", "obj_dict")
 
 
 def render_tokens(toks, rng, newline=False, info=None):
